@@ -417,25 +417,42 @@ class SymByteArray(SymSeq):
 
     def __init__(self, items=()):
         self.items = list(items)
+        self._exports = 0          # live memoryviews of this buffer (CPython: a bytearray with exports cannot be resized)
 
     def _new(self, items):
         return SymByteArray(items)
 
+    def _resizing(self):
+        if getattr(self, '_exports', 0) > 0:
+            raise BufferError('Existing exports of data: object cannot be re-sized')
+
     def extend(self, other):
-        self.items.extend(items_of(other))
+        it = items_of(other)
+        if it:
+            self._resizing()
+        self.items.extend(it)
 
     def append(self, x):
+        self._resizing()
         self.items.append(x)
 
     def __iadd__(self, other):
-        self.items.extend(items_of(other))
+        it = items_of(other)
+        if it:
+            self._resizing()
+        self.items.extend(it)
         return self
 
     def __delitem__(self, k):
         if isinstance(k, slice):
             k = _norm_slice(k, len(self.items))
+            if len(range(*k.indices(len(self.items)))):
+                self._resizing()
         elif isinstance(k, SymInt):
             k = k.concretize()
+            self._resizing()
+        else:
+            self._resizing()
         del self.items[k]
 
     def __setitem__(self, k, v):
@@ -447,6 +464,8 @@ class SymByteArray(SymSeq):
                 if len(idx) != len(vi):
                     raise ValueError('attempt to assign bytes of size %d to extended slice of size %d'
                                      % (len(vi), len(idx)))
+            elif len(range(*k.indices(len(self.items)))) != len(vi):
+                self._resizing()
             self.items[k] = vi
             return
         if isinstance(k, SymInt):
@@ -457,6 +476,8 @@ class SymByteArray(SymSeq):
         raise TypeError("unhashable type: 'bytearray'")
 
     def clear(self):
+        if self.items:
+            self._resizing()
         del self.items[:]
 
     def copy(self):
@@ -490,6 +511,11 @@ class SymMemoryView(SymSeq):
         self.base = base
         self.start = start
         self.stop = len(base.items) if stop is None else stop
+        self._live = True
+        try:
+            base._exports += 1
+        except AttributeError:
+            self._live = False
 
     def _get(self):
         return self.base.items[self.start:self.stop]
@@ -523,7 +549,15 @@ class SymMemoryView(SymSeq):
         self.base.items[self.start + k] = v
 
     def release(self):
-        pass
+        if self._live:
+            self._live = False
+            self.base._exports -= 1
+
+    def __del__(self):
+        try:
+            self.release()
+        except Exception:
+            pass
 
     def __hash__(self):
         return hash(self.concretize())
